@@ -1231,3 +1231,36 @@ func refusalGrid(rep *Report, s *principal) error {
 	}
 	return nil
 }
+
+// printerReplay (C09, Printer.tla): the real Statement.String() of W^d(== .x 1) has the bytes and the newlines the cost model
+// computes. A difference means the model no longer describes the printer (drift), not that the code is wrong.
+func init() {
+	replays["printer"] = func(cases []json.RawMessage, rep *Report) error {
+		for _, raw := range cases {
+			var c struct {
+				Wrap  string `json:"wrap"`
+				Depth int    `json:"depth"`
+				Bytes int    `json:"bytes"`
+				Lines int    `json:"lines"`
+			}
+			if err := json.Unmarshal(raw, &c); err != nil {
+				return err
+			}
+			wrap := map[string][2]string{"or": {`["or", [`, `]]`}, "and": {`["and", [`, `]]`}, "all": {`["all", ".l", `, `]`}, "any": {`["any", ".l", `, `]`}, "not": {`["not", ["not", `, `]]`}}[c.Wrap]
+			pol, err := policy.FromDagJson("[" + strings.Repeat(wrap[0], c.Depth) + `["==", ".x", 1]` + strings.Repeat(wrap[1], c.Depth) + "]")
+			if err != nil {
+				return fmt.Errorf("printer case %s: %w", raw, err)
+			}
+			rep.Evaluations++
+			if c.Depth > 0 {
+				rep.nontrivial(string(raw))
+			}
+			text := pol[0].String()
+			if len(text) != c.Bytes || strings.Count(text, "\n") != c.Lines {
+				rep.drift(json.RawMessage(raw), fmt.Sprintf("%d bytes, %d newlines", c.Bytes, c.Lines), fmt.Sprintf("%d bytes, %d newlines", len(text), strings.Count(text, "\n")),
+					"the printed statement has another size than the cost model of Printer.tla computes")
+			}
+		}
+		return nil
+	}
+}
